@@ -153,7 +153,25 @@ def class_body_range(text, classname):
     raise ExtractionBreak("class %s not found" % classname)
 
 
-def find_function(relpath, qualname, sig=None, inclass=None, nth=1):
+LAMBDA_RE = re.compile(r'\[(?:[^\[\]]*)\]\s*\(([^()]*)\)\s*(?:mutable\s*)?\{')
+
+
+def find_lambdas(body):
+    """top-level lambda expressions in a function body: list of (start, end_exclusive, params, inner body text)"""
+    out = []
+    i = 0
+    while True:
+        m = LAMBDA_RE.search(body, i)
+        if not m:
+            break
+        ob = m.end() - 1
+        cb = match_close(body, ob)
+        out.append((m.start(), cb + 1, norm_ws(m.group(1)), body[ob + 1:cb]))
+        i = cb + 1
+    return out
+
+
+def find_function(relpath, qualname, sig=None, inclass=None, nth=1, lambda_n=None):
     """Locate the definition of qualname in relpath.
 
     qualname: e.g. 'queue::incoming_packet' (out-of-class definition) or, with
@@ -192,7 +210,8 @@ def find_function(relpath, qualname, sig=None, inclass=None, nth=1):
             while True:
                 im = re.match(r'\s*([\w:<>]+)\s*([\(\{])', text[k:])
                 if not im:
-                    raise ExtractionBreak("cannot parse initialiser list of %s" % qualname)
+                    k = None   # not a definition (e.g. the name inside a string literal followed by ':')
+                    break
                 o = k + im.end() - 1
                 c = match_close(text, o, im.group(2), ')' if im.group(2) == '(' else '}')
                 inits.append((im.group(1), norm_ws(text[o + 1:c])))
@@ -203,9 +222,12 @@ def find_function(relpath, qualname, sig=None, inclass=None, nth=1):
                     continue
                 bm = re.match(r'\s*\{', text[k:])
                 if not bm:
-                    raise ExtractionBreak("no body after initialiser list of %s" % qualname)
+                    k = None
+                    break
                 k += bm.end() - 1
                 break
+            if k is None:
+                continue
         if sig is not None and norm_ws(sig) not in params and norm_ws(sig) != params:
             continue
         # exclude things like 'return foo(' / 'x = foo(' : require that the token before is a type-ish thing
@@ -251,6 +273,16 @@ def find_function(relpath, qualname, sig=None, inclass=None, nth=1):
         ex.handlers = hs
     ex.line_start = text.count('\n', 0, start) + 1
     ex.line_end = text.count('\n', 0, end) + 1
+    if lambda_n is not None:
+        ls = find_lambdas(ex.body)
+        if len(ls) < lambda_n:
+            raise ExtractionBreak("lambda %d of %s not found (%d lambdas)" % (lambda_n, qualname, len(ls)))
+        a, b, lp, lb = ls[lambda_n - 1]
+        ex.qualname += '::<lambda %d>' % lambda_n
+        ex.params = lp
+        ex.body = lb
+        ex.inits = []
+        ex.handlers = []
     ex.sha256 = hashlib.sha256(norm_ws(ex.body).encode()).hexdigest()
     return ex
 
